@@ -10,9 +10,6 @@ Definition sasl_negotiateClient_returns : list (bytes * bytes) := [
   ((hex "6d61736b"), (hex "657272"));  (* return mask, nil, err *)
   ((hex "6d61736b"), (hex "657272"));  (* return mask, nil, err *)
   ((hex "6d61736b"), (hex "657272"));  (* return mask, nil, err *)
-  ((hex "6d61736b"), (hex "657272"));  (* return mask, nil, err *)
-  ((hex "6d61736b"), (hex "657272"));  (* return mask, nil, err *)
-  ((hex "6d61736b"), (hex "657272556e65787065637465645061796c6f6164"));  (* return mask, nil, errUnexpectedPayload *)
   ((hex "6d61736b"), (hex "6374782e4572722829"));  (* return mask, nil, ctx.Err() *)
   ((hex "6d61736b"), (hex "657272"));  (* return mask, nil, err *)
   ((hex "6d61736b"), (hex "657272"));  (* return mask, nil, err *)
@@ -20,6 +17,9 @@ Definition sasl_negotiateClient_returns : list (bytes * bytes) := [
   ((hex "6d61736b"), (hex "657272"));  (* return mask, nil, err *)
   ((hex "6d61736b"), (hex "657272"));  (* return mask, nil, err *)
   ((hex "6d61736b"), (hex "657272"));  (* return mask, nil, err *)
+  ((hex "6d61736b"), (hex "657272"));  (* return mask, nil, err *)
+  ((hex "6d61736b"), (hex "657272"));  (* return mask, nil, err *)
+  ((hex "6d61736b"), (hex "657272556e65787065637465645061796c6f6164"));  (* return mask, nil, errUnexpectedPayload *)
   ((hex "417574686e"), (hex "6e696c"))  (* return Authn, session.Conn(), nil *)
 ].
 Definition sasl_negotiateClient_mask_writes : nat := 0.
